@@ -290,6 +290,9 @@ func classifyMapRange(c *Ctx, s mapRange) (string, string) {
 			if !sorted {
 				return "", "collects into " + o.Name() + " which is not sorted afterwards in " + declKey(s.fd)
 			}
+			if why := sortIsTotal(c, s, o, keyObj); why != "" {
+				return "", "collects into " + o.Name() + " but the sort that follows is not a total order on the collected elements, so ties keep map-iteration order: " + why
+			}
 		}
 		var names []string
 		for o := range collectors {
@@ -418,4 +421,112 @@ func ruleC05EnvFresh(c *Ctx, r *Rep) {
 		}
 	}
 	r.OK("globals", token.NoPos, "%d package-level variables of package gojq, none of run-state type", n)
+}
+
+// sortIsTotal checks that the sort applied to collector o after the map loop orders the collected elements totally:
+// either the element is (or has a field initialised from) the unique map key, collected once per iteration, and the
+// comparator uses it; or the comparator mentions every field of the element struct. Returns "" if total.
+func sortIsTotal(c *Ctx, s mapRange, o types.Object, keyObj types.Object) string {
+	info := s.pkg.TypesInfo
+	var sortCall *ast.CallExpr
+	ast.Inspect(s.fd.Body, func(n ast.Node) bool {
+		if call, ok := n.(*ast.CallExpr); ok && call.Pos() > s.rs.End() && isSortCall(info, call) && len(call.Args) > 0 && sortCall == nil {
+			if id, ok := unparen(call.Args[0]).(*ast.Ident); ok && info.ObjectOf(id) == o {
+				sortCall = call
+			}
+		}
+		return true
+	})
+	if sortCall == nil {
+		return "no sort call"
+	}
+	elem := o.Type()
+	if sl, ok := elem.Underlying().(*types.Slice); ok {
+		elem = sl.Elem()
+	}
+	if p, ok := elem.Underlying().(*types.Pointer); ok {
+		elem = p.Elem()
+	}
+	st, isStruct := elem.Underlying().(*types.Struct)
+	if !isStruct {
+		// []string / []int: the natural order is total; elements come from distinct keys or are compared whole
+		if len(sortCall.Args) == 1 {
+			return ""
+		}
+	}
+	var cmp *ast.FuncLit
+	if len(sortCall.Args) >= 2 {
+		cmp, _ = unparen(sortCall.Args[1]).(*ast.FuncLit)
+	}
+	if cmp == nil {
+		if !isStruct {
+			return ""
+		}
+		return "comparator is not a function literal"
+	}
+	mentioned := map[string]bool{}
+	ast.Inspect(cmp.Body, func(n ast.Node) bool {
+		if sel, ok := n.(*ast.SelectorExpr); ok {
+			mentioned[sel.Sel.Name] = true
+		}
+		return true
+	})
+	if !isStruct {
+		return ""
+	}
+	all := true
+	var missing []string
+	for i := 0; i < st.NumFields(); i++ {
+		if !mentioned[st.Field(i).Name()] {
+			all = false
+			missing = append(missing, st.Field(i).Name())
+		}
+	}
+	if all {
+		return ""
+	}
+	// keyed: exactly one element per iteration (not inside an inner loop) with a mentioned field initialised from the loop key
+	keyedField := ""
+	inInner := false
+	walkStack(s.rs.Body, func(n ast.Node, stack []ast.Node) bool {
+		cl, ok := n.(*ast.CompositeLit)
+		if !ok {
+			return true
+		}
+		t := info.TypeOf(cl)
+		if t == nil {
+			return true
+		}
+		if p, ok := t.Underlying().(*types.Pointer); ok {
+			t = p.Elem()
+		}
+		if !types.Identical(t, elem) {
+			return true
+		}
+		for _, a := range stack {
+			switch a.(type) {
+			case *ast.ForStmt, *ast.RangeStmt:
+				inInner = true
+			}
+		}
+		for i, el := range cl.Elts {
+			name := ""
+			var val ast.Expr
+			if kv, ok := el.(*ast.KeyValueExpr); ok {
+				name = kv.Key.(*ast.Ident).Name
+				val = kv.Value
+			} else if i < st.NumFields() {
+				name = st.Field(i).Name()
+				val = el
+			}
+			if id, ok := unparen(val).(*ast.Ident); ok && keyObj != nil && info.ObjectOf(id) == keyObj {
+				keyedField = name
+			}
+		}
+		return true
+	})
+	if keyedField != "" && !inInner && mentioned[keyedField] {
+		return ""
+	}
+	return "comparator ignores field(s) " + strings.Join(missing, ",") + " and the elements are not one-per-unique-map-key"
 }
